@@ -165,6 +165,12 @@ pub mod http {
             pub fn body<B>(self, b: B) -> (r: Result<Response<B>, HttpError>) ensures r matches Ok(x) && x.v@ == self.v@ && x.body == b && !x.extra.entity_hdrs@ && x.extra.appended@.len() == 0 { Ok(Response { v: self.v, body: b, extra: HeaderMap::new() }) }
         }
     }
+    /// http::Request as far as `serve` looks at it.
+    pub struct Request { pub method: Method, pub headers: HeaderMap }
+    impl Request {
+        pub fn method(&self) -> (r: &Method) ensures r == &self.method { &self.method }
+        pub fn headers(&self) -> (r: &HeaderMap) ensures r == &self.headers { &self.headers }
+    }
     /// `extra` stands for the headers added after the builder stage through `headers_mut()`.
     pub struct Response<B> { pub v: Ghost<RespView>, pub body: B, pub extra: HeaderMap }
     #[derive(Debug)]
@@ -181,9 +187,26 @@ pub mod http {
     }
     /// Request side: ghost map name -> value (first value; repeated header lines are outside this view).
     /// Response side: `appended` = values appended in order, `entity_hdrs` = "Entity::add_headers was applied".
-    pub struct HeaderMap { pub m: Ghost<Map<HeaderName, HeaderValue>>, pub entity_hdrs: Ghost<bool>, pub appended: Ghost<Seq<(HeaderName, HV)>> }
+    pub struct HeaderMap { pub m: Ghost<Map<HeaderName, HeaderValue>>, pub entity_hdrs: Ghost<bool>, pub appended: Ghost<Seq<(HeaderName, HV)>>, pub entries: Ghost<Seq<(Seq<u8>, Seq<u8>)>> }
+    /// A header name as yielded by iteration (`k.as_str().as_bytes()`).
+    pub struct EntName { pub bytes: Vec<u8> }
+    impl EntName {
+        pub fn as_str(&self) -> (r: &EntName) ensures r == self { self }
+        pub fn as_bytes(&self) -> (r: &[u8]) ensures r@ == self.bytes@ { self.bytes.as_slice() }
+    }
+    /// `(&HeaderMap).into_iter()` / `.iter()`: yields the entries in order.
+    pub struct HdrIter<'a> { pub rest: Ghost<Seq<(Seq<u8>, Seq<u8>)>>, pub _p: std::marker::PhantomData<&'a HeaderMap> }
+    impl<'a> HdrIter<'a> {
+        #[verifier::external_body]
+        pub fn next(&mut self) -> (r: Option<(&'a EntName, &'a HeaderValue)>)
+            ensures old(self).rest@.len() == 0 ==> r.is_none() && final(self).rest@ == old(self).rest@,
+                    old(self).rest@.len() > 0 ==> (r matches Some(kv) && kv.0.bytes@ == old(self).rest@[0].0 && kv.1.bytes@ == old(self).rest@[0].1) && final(self).rest@ == old(self).rest@.subrange(1, old(self).rest@.len() as int)
+        { unimplemented!() }
+    }
     impl HeaderMap {
-        pub fn new() -> (r: HeaderMap) ensures !r.entity_hdrs@, r.m@ == Map::<HeaderName, HeaderValue>::empty(), r.appended@.len() == 0 { HeaderMap { m: Ghost(Map::empty()), entity_hdrs: Ghost(false), appended: Ghost(Seq::empty()) } }
+        pub fn new() -> (r: HeaderMap) ensures !r.entity_hdrs@, r.m@ == Map::<HeaderName, HeaderValue>::empty(), r.appended@.len() == 0, r.entries@.len() == 0 { HeaderMap { m: Ghost(Map::empty()), entity_hdrs: Ghost(false), appended: Ghost(Seq::empty()), entries: Ghost(Seq::empty()) } }
+        #[verifier::external_body]
+        pub fn iter(&self) -> (r: HdrIter<'_>) ensures r.rest@ == self.entries@ { unimplemented!() }
         #[verifier::external_body]
         pub fn get(&self, k: HeaderName) -> (r: Option<&HeaderValue>)
             ensures r.is_some() == self.m@.dom().contains(k), r matches Some(v) ==> *v == self.m@[k]
